@@ -21,19 +21,33 @@ def routing_case(draw, broker):
     reg = 0
     for _ in range(nrouters):
         regs = []
+        # the router's default queue (RouterDefaults.queue; "default" when the router is built without defaults)
+        dq = draw(st.sampled_from([None, None, "default", "q1", "q2"]))
         for _ in range(draw(st.integers(1, 4))):
-            regs.append({"name": draw(st.sampled_from(NAMES)), "queue": draw(st.sampled_from(QUEUES)), "reg": reg})
+            r = {"name": draw(st.sampled_from(NAMES)), "queue": draw(st.sampled_from(QUEUES)), "reg": reg}
+            if draw(st.integers(0, 3)) == 0:
+                # registered without a queue: the router's default applies ("queue" holds the effective one)
+                r["queue"], r["queue_given"], r["router_default"] = dq or "default", False, dq
+            if draw(st.integers(0, 3)) == 0:
+                r["name_given"] = False  # registered without a name: the function's __name__ (identifier-shaped names only)
+                r["name"] = draw(st.sampled_from(["a", "ab", "b"]))
+            regs.append(r)
             reg += 1
+        for r in regs:
+            r["router_default"] = dq
         routers.append(regs)
     nworkers = draw(st.integers(1, 2))
     workers = []
     for _ in range(nworkers):
         idx = draw(st.lists(st.integers(0, nrouters - 1), min_size=1, max_size=nrouters, unique=True))
-        workers.append({"routers": idx, "tasks_limit": draw(st.sampled_from([1, 2, 1000]))})
+        # how each router reaches the worker: handed to the constructor, included afterwards, or through an intermediate router
+        # that included it first (the same actors either way)
+        workers.append({"routers": idx, "tasks_limit": draw(st.sampled_from([1, 2, 1000])),
+                        "how": [draw(st.sampled_from(["ctor", "ctor", "late", "nested", "nested-late"])) for _ in idx]})
     jobs = []
     for i in range(draw(st.integers(1, 8))):
         jobs.append({"id": f"j{i}", "name": draw(st.sampled_from(NAMES + ["zz_unknown"])),
-                     "queue": draw(st.sampled_from(QUEUES + ["q_unserved"])),
+                     "queue": draw(st.sampled_from(QUEUES + ["q_unserved", "default"])),
                      "at": draw(st.one_of(st.just(0.0), st.integers(0, 1500).map(lambda ms: ms / 1000))),
                      "retries": draw(st.integers(0, 2)),
                      # some jobs are deferred: they pass through the delayed category of a queue other workers poll
@@ -77,20 +91,45 @@ async def _routing(loop, case, out: Outcome):
             return 1
         return fn
 
+    from repid.router import RouterDefaults
+
     routers = []
     for regs in case["routers"]:
-        r = Router()
+        dq = regs[0].get("router_default") if regs else None
+        r = Router(defaults=RouterDefaults(queue=dq)) if dq is not None else Router()
         for reg in regs:
-            r.actor(make_actor(reg), name=reg["name"], queue=reg["queue"], converter=BasicConverter)
+            fn = make_actor(reg)
+            kw = {"converter": BasicConverter}
+            if reg.get("name_given", True):
+                kw["name"] = reg["name"]
+            else:
+                fn.__name__ = reg["name"]
+            if reg.get("queue_given", True):
+                kw["queue"] = reg["queue"]
+            r.actor(fn, **kw)
         routers.append(r)
-    for q in QUEUES + ["q_unserved"]:
+    for q in QUEUES + ["q_unserved", "default"]:
         await Queue(q, _connection=prod).declare()
     workers = []
     for wi, w in enumerate(case["workers"]):
         conn = env.connection(f"w{wi}", case.get("lat") if wi == 0 else None, buckets=False)
         await conn.connect()
-        wk = Worker(routers=[routers[i] for i in w["routers"]], tasks_limit=w["tasks_limit"], graceful_shutdown_time=3.0,
-                    _connection=conn)
+        how = w.get("how") or ["ctor"] * len(w["routers"])
+        # (inclusion order is the order of w["routers"] whichever way a router comes in: constructor routers first would reorder
+        #  them, so once one router is included late every following one is too)
+        first_late = next((n for n, h in enumerate(how) if h in ("late", "nested-late")), len(how))
+
+        def via(i: int, h: str):
+            if h.startswith("nested"):
+                outer = Router()
+                outer.include_router(routers[i])
+                return outer
+            return routers[i]
+
+        wk = Worker(routers=[via(i, h) for i, h in list(zip(w["routers"], how))[:first_late]], tasks_limit=w["tasks_limit"],
+                    graceful_shutdown_time=3.0, _connection=conn)
+        for i, h in list(zip(w["routers"], how))[first_late:]:
+            wk.include_router(via(i, h))
         # structural: the worker holds exactly the last-wins union
         exp = final_actors(case, w)
         got = {n: a.queue for n, a in wk.actors.items()}
